@@ -139,7 +139,7 @@ class RefsWorld:
                 continue
             if rng.random() < rr:
                 k = weighted(rng, [('plain_bad', 3), ('link_bad', 4), ('const', 2), ('ro', 1), ('clsset', 1), ('update_bad', 2), ('ctor_bad', 1.5),
-                                   ('reent', 2.5), ('batch_reject', 1.5)])
+                                   ('reent', 2.5), ('batch_reject', 1.5), ('ev_bad', 1), ('comp_bad', 1.2)])
                 after_reject = 2
             else:
                 k = weighted(rng, [('src', 8), ('link', 5), ('plain', 2.5), ('update1', 1), ('uctx_open', 1), ('uctx_close', 1.2), ('ctor', 0.6),
@@ -194,6 +194,10 @@ class RefsWorld:
                 ops.append({'op': 'link', 't': t, 'p': pn, 'ref': ref})
             elif k == 'trigger':
                 ops.append({'op': 'trigger', 't': t, 'p': pn})
+            elif k == 'ev_bad':
+                ops.append({'op': 'ev_bad', 't': t, 'how': rng.choice(['plain', 'update'])})
+            elif k == 'comp_bad':
+                ops.append({'op': 'comp_bad', 't': t, 'v': rng.randint(0, 10)})
             elif k == 'reent_over':
                 ops.append({'op': 'reent', 't': t, 'p': rng.choice(['a', 'b']), 'i': rng.randrange(2), 'v': rng.randint(0, 5), 'how': 'override',
                             'bs': 0, 'bp': 'x'})
@@ -320,6 +324,8 @@ class _Run:
             't': param.String(default='v0', regex='^v[0-9]$', allow_refs=True),
             'k': param.Number(default=3, bounds=(0, 10), constant=True, allow_refs=True),
             'ro': param.Number(default=4, readonly=True, allow_refs=True),
+            'e': param.Event(),
+            'comp': param.Composite(attribs=['a', 'b']),
         })
         self.SubTgt = type('SubTgt', (self.Tgt,), {})       # inherits every Parameter: a class-level set copies on write
         self.src = [Src() for _ in range(self.cfg['n_src'])]
@@ -441,7 +447,7 @@ class _Run:
         for i, s in enumerate(self.src):
             vals.append((f"S{i}", s.x, s.y, self.wcount(s)))
         for i, t in enumerate(self.tgt):
-            vals.append((f"T{i}",) + tuple(repr(getattr(t, p)) for p in TPARAMS + ('ro',)) + (self.wcount(t),))
+            vals.append((f"T{i}",) + tuple(repr(getattr(t, p)) for p in TPARAMS + ('ro', 'e')) + (self.wcount(t),))
         vals.append(('cls', repr(self.Tgt.a), repr(self.Tgt.t), repr(self.Tgt.ro), repr(self.Tgt.k)))
         # the inheriting subclass sees the very Parameter objects of its base (a rejected class-level set must not detach it)
         vals.append(('subcls', repr(self.SubTgt.a), repr(self.SubTgt.t), repr(self.SubTgt.ro)) +
@@ -583,6 +589,32 @@ class _Run:
         t = self.tgt[ti]
         if k == 'reent':
             self.reentrant(op, ti, t)
+            return
+        if k == 'ev_bad':
+            # a rejected assignment to an Event parameter made while the Event is set (from one of its own watchers)
+            fired = []
+
+            def cb(event):
+                if not fired and event.new is True:
+                    fired.append(1)
+                    if op.get('how') == 'update':
+                        self.attempt(lambda: t.param.update(e='x'), False, f"update T{ti}.e = 'x' from a watcher of the Event", ti, 'e')
+                    else:
+                        self.attempt(lambda: setattr(t, 'e', 'x'), False, f"plain T{ti}.e = 'x' from a watcher of the Event", ti, 'e')
+            w = t.param.watch(cb, ['e'])
+            try:
+                t.e = True
+            except Exception as e:      # noqa
+                self.viol('C08.exception', f"T{ti}.e = True raised {type(e).__name__}: {str(e)[:120]}")
+            finally:
+                t.param.unwatch(w)
+            self.out.stats['probe.rejected_assignment_to_set_event'] += 1
+            return
+        if k == 'comp_bad':
+            # a Composite is assigned values of which a LATER one is invalid for its constituent: nothing may change
+            if self.uctx[ti]:
+                return
+            self.attempt(lambda: setattr(t, 'comp', [op['v'], 99]), False, f"composite T{ti}.comp = [{op['v']}, 99]", ti, 'a')
             return
         if k == 'trigger':
             # param.trigger re-announces the current value: no assignment by the user, a linked parameter stays linked
